@@ -40,7 +40,7 @@ func checkC16(c *Ctx) {
 	flowSelfTest(c)
 	// the task-pipeline rules recognise the two literal task lists and the context struct; what the pipelines compute is
 	// decided end to end by R9 on the cores themselves, so an unrecognised shape of these rules is a note (§7)
-	for _, rl := range []string{"R2.keys", "R2.kek", "R2.mic-enc", "R3.defuse", "R4.order", "R4.errvar", "R4.loop", "R8.echo", "R8.joinnonce"} {
+	for _, rl := range []string{"R1.keyblocks", "R2.keys", "R2.kek", "R2.mic-enc", "R3.defuse", "R4.order", "R4.errvar", "R4.loop", "R8.echo", "R8.joinnonce"} {
 		r.Advisory(rl, "R9.join-e1", "R9.rejoin-e1")
 	}
 	c16KeyBlocks(c)
